@@ -54,6 +54,8 @@ def rand_string(rng):
 
 def rand_leaf(rng, ids, self_id=None):
     r = rng.random()
+    if not ids:
+        r = r * 0.67 if r < 0.92 else 0.7      # no objects around: values, raw blocks, strings, a few null pointers
     if r < 0.40:
         k = rng.choice(KINDS)
         return "P %s %x" % (k, prim_value(rng, k))
@@ -130,7 +132,7 @@ class C10(vlib.HistoryProp):
         ops = []
         for _ in range(n):
             ops.append(rand_leaf(rng, []))
-        return Case(cid, rng.choice(HEADERS), ops, "random-primitives-len%d" % n)
+        return Case(cid, rng.choice(HEADERS), ops, "random-values-%s-calls" % ("1-20" if n <= 20 else "21-200"))
 
     ALPHA = ["Q p 1", "Q s 1", "Q s 2", "Q p n", "Q p 3", "B 0 1 [ ]", "B 0 1 [ Q p 1 ; Q s 2 ]", "B 1 2 [ Q s 1 ]",
              "B 2 3 [ Q p 2 ; Q s 3 ]", "B 3 4 [ S - ; Q p 4 ]", "O 1", "O 2", "O 5", "S -", "S 61", "P u8 ff", "R -", "R 00",
